@@ -76,6 +76,43 @@ def _in_bbox(pt, mn, mx, tol=1e-9):
     return True
 
 
+def _edited(c):
+    """the shape the queries are about: after the optional edit of the control points"""
+    s = c["shape"]
+    if not c.get("edit"):
+        return s
+    f, sh = F(c["factor"]), [F(x) for x in c["shift"]]
+    if c["edit"] == "scale":
+        P2 = [[float(F(x) * f) for x in pt] for pt in s["ctrlpts"]]
+    elif c["edit"] == "translate":
+        P2 = [[float(F(x) + d) for x, d in zip(pt, sh)] for pt in s["ctrlpts"]]
+    else:
+        P2 = [[float(F(x) * f + d) for x, d in zip(pt, sh)] for pt in s["ctrlpts"]]
+    s2 = dict(s)
+    s2["ctrlpts"] = P2
+    return s2
+
+
+
+def _add_edit(rng, c, i, dim):
+    if i % 3 == 1:
+        c["edit"] = ["ctrlpts", "scale", "translate"][(i // 3) % 3]
+        c["factor"] = rng.choice([2.0, -1.5, 0.5])
+        c["shift"] = [rng.randint(-40, 40) / 4.0 for _ in range(dim)]
+    else:
+        c["edit"] = None
+    return c
+
+
+def _apply_edit(o, c, s):
+    if c["edit"] == "scale":
+        operations.scale(o, c["factor"], inplace=True)
+    elif c["edit"] == "translate":
+        operations.translate(o, c["shift"], inplace=True)
+    else:
+        o.ctrlpts = [list(p) for p in s["ctrlpts"]]
+
+
 class Hull(Family):
     name = "hull"
     imports = ("Model.Basis", "Model.Knots", "Model.Eval", "Model.Homog", "Model.Hull")
@@ -100,20 +137,7 @@ class Hull(Family):
         return out
 
     def _eff(self, c):
-        """the shape the queries are about: after the optional edit of the control points"""
-        s = c["shape"]
-        if not c.get("edit"):
-            return s
-        f, sh = F(c["factor"]), [F(x) for x in c["shift"]]
-        if c["edit"] == "scale":
-            P2 = [[float(F(x) * f) for x in pt] for pt in s["ctrlpts"]]
-        elif c["edit"] == "translate":
-            P2 = [[float(F(x) + d) for x, d in zip(pt, sh)] for pt in s["ctrlpts"]]
-        else:
-            P2 = [[float(F(x) * f + d) for x, d in zip(pt, sh)] for pt in s["ctrlpts"]]
-        s2 = dict(s)
-        s2["ctrlpts"] = P2
-        return s2
+        return _edited(c)
 
     def impl(self, c):
         s0 = c["shape"]
@@ -233,17 +257,22 @@ class EvalPts(Family):
             kind = rng.choice(["curve", "curve", "surface", "volume"]) if i % 7 else "volume"
             s = T.random_shape(rng, kind=kind)
             k = {"curve": rng.randint(2, 9), "surface": rng.randint(2, 5), "volume": rng.randint(2, 3)}[kind]
-            out.append({"shape": s, "sample": k, "dirs": _dirs(rng, s["dim"])})
+            out.append(_add_edit(rng, {"shape": s, "sample": k, "dirs": _dirs(rng, s["dim"])}, i, s["dim"]))
         return out
 
     def impl(self, c):
-        s = c["shape"]
+        s0 = c["shape"]
+        s = _edited(c)
 
         def f():
-            o = T.build(s)
-            if not T.kv_unchanged(o, s):
+            o = T.build(s0)
+            if not T.kv_unchanged(o, s0):
                 return {"skip": "knot vector altered by normalisation"}
             o.sample_size = c["sample"]
+            if c.get("edit"):
+                _ = o.evalpts          # evaluated points and bounding box are read before the control points are replaced
+                _ = o.bbox
+                _apply_edit(o, c, s)
             pts = [list(p) for p in o.evalpts]
             bb = o.bbox
             # the sample size actually used (it differs from the requested one when the domain is not [0,1]: C17's concern)
@@ -262,7 +291,7 @@ class EvalPts(Family):
     def coq(self, c, out):
         if "ok" not in out or "skip" in out["ok"]:
             return None
-        s, o, k = c["shape"], out["ok"], c["sample"]
+        s, o, k = _edited(c), out["ok"], c["sample"]
         dim = s["dim"] + (1 if s["rational"] else 0)
         net = "Pw" if s["rational"] else "P"
         dom = T.domain(s)
@@ -286,7 +315,7 @@ class EvalPts(Family):
     def oracle(self, c, out):
         if "ok" not in out:
             return "evalpts: evaluation failed on a valid shape: %s" % (out,)
-        o, s = out["ok"], c["shape"]
+        o, s = out["ok"], _edited(c)
         if "skip" in o:
             return None
         params = self._params(s, o["grids"])
@@ -311,7 +340,7 @@ class EvalPts(Family):
 
     def stratum(self, c, out):
         s = c["shape"]
-        return "%s/%s/k%d" % (s["kind"], "rat" if s["rational"] else "poly", c["sample"])
+        return "%s/%s/k%d/%s" % (s["kind"], "rat" if s["rational"] else "poly", c["sample"], "edit-" + c["edit"] if c.get("edit") else "fresh")
 
 
 class Length(Family):
@@ -327,7 +356,7 @@ class Length(Family):
             r = rng.random()
             if r < 0.1:
                 s = T.random_shape(rng, kind="surface", rational=False)
-                out.append({"shape": s, "sample": 3, "mal": "not-a-curve"})
+                out.append({"shape": s, "sample": 3, "mal": "not-a-curve", "edit": None})
                 continue
             s = T.random_shape(rng, kind="curve", rational=False)
             if r < 0.25:
@@ -337,17 +366,21 @@ class Length(Family):
                 d = [rng.randint(-8, 8) / 8.0 for _ in range(s["dim"])]
                 ts = sorted(rng.sample(range(0, 64), n_))
                 s["ctrlpts"] = [[a[c] + d[c] * t for c in range(s["dim"])] for t in ts]
-            out.append({"shape": s, "sample": rng.choice([2, 3, 5, 8, 13, 21]), "mal": "none"})
+            out.append(_add_edit(rng, {"shape": s, "sample": rng.choice([2, 3, 5, 8, 13, 21]), "mal": "none"}, i, s["dim"]))
         return out
 
     def impl(self, c):
-        s = c["shape"]
+        s0 = c["shape"]
+        s = _edited(c)
 
         def f():
-            o = T.build(s)
-            if not T.kv_unchanged(o, s):
+            o = T.build(s0)
+            if not T.kv_unchanged(o, s0):
                 return {"skip": "knot vector altered by normalisation"}
             o.sample_size = c["sample"]
+            if c.get("edit"):
+                _ = operations.length_curve(o)      # the length (and the evaluated points) are read before the edit
+                _apply_edit(o, c, s)
             L = operations.length_curve(o)
             pts = [list(p) for p in o.evalpts]
             segs = [linalg.point_distance(pts[i], pts[i + 1]) for i in range(len(pts) - 1)]
@@ -357,7 +390,7 @@ class Length(Family):
     def coq(self, c, out):
         if c["mal"] != "none" or "ok" not in out or "skip" in out["ok"]:
             return None
-        s, o = c["shape"], out["ok"]
+        s, o = _edited(c), out["ok"]
         (a, b), = T.domain(s)
         t = "curve_evalpts Qops %s %s %s U0 P %s %s %s" % (G.Q(TOL8), G.n(s["dim"]), G.n(s["degree"][0]), G.Q(a), G.Q(b), G.n(o["n"]))
         if o["n"] > 200:
@@ -370,7 +403,7 @@ class Length(Family):
             return None if "rej" in out else "length: length_curve accepted a %s: %s" % (c["shape"]["kind"], out)
         if "ok" not in out:
             return "length: length_curve failed on a valid curve: %s" % (out,)
-        o, s = out["ok"], c["shape"]
+        o, s = out["ok"], _edited(c)
         if "skip" in o:
             return None
         L = F(o["length"])
@@ -396,7 +429,7 @@ class Length(Family):
         return "ok" in out and "skip" not in out["ok"]
 
     def stratum(self, c, out):
-        return "%s/k%d" % (c["mal"], c["sample"])
+        return "%s/k%d/%s" % (c["mal"], c["sample"], "edit-" + c["edit"] if c.get("edit") else "fresh")
 
 
 def families():
